@@ -7,24 +7,59 @@ use generic_array::typenum::*;
 use generic_array::{ArrayLength, GenericArray, GenericArrayIter};
 use harness::*;
 
-fn opt(out: &mut Vec<i128>, o: Option<u32>) {
+/// Element types: plain `u32` (Clone = copy) and `Cn`: no drop glue, not Copy, and a
+/// hand-written Clone that is observable (adds 2^20) -- a bitwise shortcut in the
+/// iterator's Clone would go unnoticed with `u32`.
+trait El: Clone + std::fmt::Debug + 'static {
+    fn mk(v: u32) -> Self;
+    fn val(&self) -> u32;
+}
+impl El for u32 {
+    fn mk(v: u32) -> u32 {
+        v
+    }
+    fn val(&self) -> u32 {
+        *self
+    }
+}
+struct Cn(u32);
+impl Clone for Cn {
+    fn clone(&self) -> Cn {
+        Cn(self.0 + (1 << 20))
+    }
+}
+impl std::fmt::Debug for Cn {
+    fn fmt(&self, f: &mut std::fmt::Formatter) -> std::fmt::Result {
+        write!(f, "{}", self.0)
+    }
+}
+impl El for Cn {
+    fn mk(v: u32) -> Cn {
+        Cn(v)
+    }
+    fn val(&self) -> u32 {
+        self.0
+    }
+}
+
+fn opt<E: El>(out: &mut Vec<i128>, o: Option<E>) {
     match o {
         None => out.push(0),
         Some(x) => {
             out.push(1);
-            out.push(x as i128)
+            out.push(x.val() as i128)
         }
     }
 }
-fn list(out: &mut Vec<i128>, l: &[u32]) {
+fn list<E: El>(out: &mut Vec<i128>, l: &[E]) {
     out.push(4);
     out.push(l.len() as i128);
-    out.extend(l.iter().map(|x| *x as i128));
+    out.extend(l.iter().map(|x| x.val() as i128));
 }
 
-fn run<N: ArrayLength>(vals: &[i128], ops: &[i128]) -> Vec<i128> {
-    let arr: GenericArray<u32, N> = GenericArray::from_iter(vals.iter().map(|v| *v as u32));
-    let mut it: GenericArrayIter<u32, N> = arr.into_iter();
+fn run<E: El, N: ArrayLength>(vals: &[i128], ops: &[i128]) -> Vec<i128> {
+    let arr: GenericArray<E, N> = GenericArray::from_iter(vals.iter().map(|v| E::mk(*v as u32)));
+    let mut it: GenericArrayIter<E, N> = arr.into_iter();
     let mut out = vec![];
     let mut i = 0;
     while i < ops.len() {
@@ -56,7 +91,7 @@ fn run<N: ArrayLength>(vals: &[i128], ops: &[i128]) -> Vec<i128> {
             6 => list(&mut out, it.as_slice()),
             7 => {
                 let ix = ops[i] as usize;
-                let v = ops[i + 1] as u32;
+                let v = E::mk(ops[i + 1] as u32);
                 i += 2;
                 let r = catch(|| {
                     it.as_mut_slice()[ix] = v;
@@ -103,6 +138,7 @@ fn run<N: ArrayLength>(vals: &[i128], ops: &[i128]) -> Vec<i128> {
                         .filter(|t| !t.is_empty())
                         .map(|t| t.parse::<u32>().unwrap_or(u32::MAX))
                         .collect();
+                    let nums: Vec<E> = nums.into_iter().map(E::mk).collect();
                     list(&mut out, &nums);
                 } else {
                     out.push(-1);
@@ -118,10 +154,11 @@ fn run_case(case: &[i128]) -> Vec<i128> {
     let n = case[0] as usize;
     let vals = &case[1..1 + n];
     let ops = &case[1 + n..];
+    let cn = std::env::args().any(|a| a == "cn");
     dispatch_len!(
         n,
         [U0, U1, U2, U3, U4, U5, U6, U7, U8, U16, U97, U1024],
-        |N| run::<N>(vals, ops),
+        |N| if cn { run::<Cn, N>(vals, ops) } else { run::<u32, N>(vals, ops) },
         panic!("length {} not monomorphised", n)
     )
 }
